@@ -2,7 +2,7 @@
    Statement file: every theorem is closed by [exact] of a lemma proved in Cal/CalendarProofs.v
    and followed by Print Assumptions.  The theorems hold for every number type with arbitrary
    operations (in particular IEEE binary64), every calendar expression, every date. *)
-From PJ Require Import Base.Prelude Cal.Calendar Cal.CalendarProofs gen.SrcCal Cal.SrcCalEquiv.
+From PJ Require Import Base.Prelude Cal.Calendar Cal.CalendarProofs gen.SrcCal Cal.SrcCalEquiv Cal.SrcCalInit.
 
 Section C17.
 Context {num : Type}.
@@ -357,6 +357,16 @@ Theorem C17_src_check_working_days : forall days,
   src_check_working_days (Some days) = if forallb weekday_ok days then Ok tt else Err.
 Proof. exact src_check_working_days_eq. Qed.
 
+(* WeeklyCalendar.__init__ in its two argument forms, as the function from the arguments to the week table it builds *)
+Theorem C17_src_weekly_init_days : forall st en days u,
+  src_weekly_init_days nzero nltb st en days u = table_of (mk_weekly_days nzero nltb st en days u).
+Proof. exact (src_weekly_init_days_eq nzero nltb). Qed.
+
+Theorem C17_src_weekly_init_dict : forall st en m,
+  NoDup (map fst m) -> nltb nzero nzero = false ->
+  src_weekly_init_dict nzero nltb st en m = table_of (mk_weekly_dict nzero nltb st en m).
+Proof. exact (src_weekly_init_dict_eq nzero nltb). Qed.
+
 End C17_src.
 
 Print Assumptions C17_sum.
@@ -417,3 +427,5 @@ Print Assumptions C17_src_search.
 Print Assumptions C17_src_fixed_init.
 Print Assumptions C17_src_check_start_end.
 Print Assumptions C17_src_check_working_days.
+Print Assumptions C17_src_weekly_init_days.
+Print Assumptions C17_src_weekly_init_dict.
